@@ -1806,6 +1806,18 @@ impl Element for XmlElement {
 impl ElementMut for XmlElement {
     fn set_attribute(&self, name: &str, value: &str) -> error::Result<()> {
         let attr = self.owner_document().unwrap().create_attribute(name)?;
+        // an attribute of that name that is already present keeps its node: its value is changed.
+        let existing = self.element.borrow().attributes().iter().find_map(|v| {
+            // (an attribute that is only there through a DTD default is not a node of this element)
+            let same = v.borrow().owner_element().is_ok()
+                && v.borrow().local_name() == attr.attribute.borrow().local_name()
+                && v.borrow().prefix() == attr.attribute.borrow().prefix();
+            same.then(|| XmlAttr::from(v.clone()))
+        });
+        if let Some(existing) = existing {
+            return existing.set_value(value);
+        }
+
         attr.set_value(value)?;
         self.set_attribute_node(attr)?;
         Ok(())
